@@ -19,7 +19,14 @@ pub enum TickTime {
     /// the run reads the simulated clock, which advances `tick_ns` per reading
     Clock { tick_ns: i64 },
     /// the run is given the instant explicitly; the clock holds a decoy
-    Explicit { zone_off: i64, zulu: bool, decoy: ClockSpec },
+    Explicit {
+        zone_off: i64,
+        zulu: bool,
+        decoy: ClockSpec,
+        /// relaxed spellings of the instant (see reftime::format_time_spelled)
+        #[serde(default)]
+        spelling: u8,
+    },
 }
 
 #[derive(Clone, Debug, Serialize, Deserialize, PartialEq)]
@@ -50,6 +57,10 @@ pub struct C19Scn {
     /// passed as --removal-marker-target-name on every tick
     pub flag_targets: Vec<String>,
     pub events: Vec<Event>,
+    /// true: the history is a *library session* (stepwise `clean` calls on one thread of one
+    /// process) instead of CLI executions rewriting a file; crashes and I/O plans do not apply
+    #[serde(default)]
+    pub session: bool,
 }
 
 const SRC: &str = "app/src.txt";
@@ -89,6 +100,7 @@ pub fn generate(seed: u64) -> C19Scn {
         tos: &tos,
         names: &names,
         allow_unwrap: true,
+        allow_wrapper_layouts: true,
         allow_inline: true,
         allow_multiline_tag: true,
         allow_other: true,
@@ -183,6 +195,7 @@ pub fn generate(seed: u64) -> C19Scn {
                 zone_off: rng.range(-48, 56) * 900,
                 zulu: rng.chance(1, 2),
                 decoy: ClockSpec { sec: *rng.pick(&[0i64, 946_684_800, 4_102_444_800]), nsec: 0, tick_ns: 0 },
+                spelling: if rng.chance(1, 3) { rng.below(8) as u8 } else { 0 },
             }
         };
         let mut io = gen_io(&mut rng);
@@ -198,7 +211,8 @@ pub fn generate(seed: u64) -> C19Scn {
             events.push(Event::Tick(Tick { now: t, time, env: env.clone(), io: gen_io(&mut rng), label: "retry".to_string() }));
         }
     }
-    C19Scn { doc, offset, initial_targets, flag_targets, events }
+    let session = rng.chance(1, 5);
+    C19Scn { doc, offset, initial_targets, flag_targets, events, session }
 }
 
 /// The tokenizer panics when a multi-byte end delimiter is the last character
@@ -230,8 +244,8 @@ fn tick_exec(scn: &C19Scn, t: &Tick) -> Exec {
     argv.push(format!("--time-limited-time-offset={}", scn.offset));
     let clock = match &t.time {
         TickTime::Clock { tick_ns } => ClockSpec { sec: t.now.0, nsec: t.now.1, tick_ns: *tick_ns },
-        TickTime::Explicit { zone_off, zulu, decoy } => {
-            argv.push(format!("--time-limited-current={}", reftime::format_rfc3339(t.now.0, t.now.1, *zone_off, *zulu)));
+        TickTime::Explicit { zone_off, zulu, decoy, spelling } => {
+            argv.push(format!("--time-limited-current={}", reftime::format_time_spelled(t.now.0, t.now.1, *zone_off, *zulu, *spelling)));
             decoy.clone()
         }
     };
@@ -284,8 +298,141 @@ fn describe(doc: &Doc, ids: &BTreeSet<u32>) -> String {
     v.join(",")
 }
 
-pub fn run(scn: &C19Scn, stats: &mut RunStats) -> Option<Violation> {
+/// One-shot cleaning of the original source in a brand-new process.
+fn fresh_one_shot(scn: &C19Scn, orig: &str, now: (i64, i64), targets: &BTreeSet<String>) -> Result<String, String> {
+    crate::iso::fresh_lib_call(&crate::iso::RefRequest {
+        text: orig.to_string(),
+        doc: scn.doc.clone(),
+        offset: scn.offset.clone(),
+        now,
+        targets: targets.clone(),
+        mode: Mode::Clean,
+        json: false,
+    })
+}
+
+fn compare_with_one_shot(scn: &C19Scn, after: &str, one_shot: &str) -> Option<(String, String, BTreeSet<u32>, BTreeSet<u32>)> {
+    if strip_ws(one_shot) == strip_ws(after) {
+        return None;
+    }
+    let got: BTreeSet<u32> = scn.doc.surviving_ids(after).into_iter().collect();
+    let want: BTreeSet<u32> = scn.doc.surviving_ids(one_shot).into_iter().collect();
+    let stranded: BTreeSet<u32> = got.difference(&want).copied().collect();
+    let over: BTreeSet<u32> = want.difference(&got).copied().collect();
+    let sig = if !stranded.is_empty() {
+        format!("stranded:{}", describe(&scn.doc, &stranded))
+    } else if !over.is_empty() {
+        format!("over-removed:{}", describe(&scn.doc, &over))
+    } else {
+        "same-tags-different-text".to_string()
+    };
+    let inv = if !stranded.is_empty() { "C19.I3_no_stranded_tag" } else { "C19.I2_stepwise_equals_one_shot" };
+    Some((inv.to_string(), sig, stranded, over))
+}
+
+/// The history as a library session: x1 = clean(x0, cfg1), x2 = clean(x1, cfg2), ... on one
+/// thread; after every step the result must equal (up to whitespace) a one-shot cleaning of the
+/// original computed in a brand-new process, and cleaning it again must change nothing.
+fn run_session(scn: &C19Scn, stats: &mut RunStats) -> Option<Violation> {
     let orig = scn.doc.render();
+    let fail = |inv: &str, sig: String, detail: String, step: usize| Some(Violation { invariant: inv.to_string(), signature: sig.replace(' ', "_"), detail, step });
+    let mut targets: BTreeSet<String> = scn.initial_targets.iter().chain(scn.flag_targets.iter()).cloned().collect();
+    let mut calls: Vec<SessionCall> = Vec::new();
+    let mut steps: Vec<(usize, (i64, i64), BTreeSet<String>)> = Vec::new(); // (event index, now, targets)
+    let mut env = BTreeMap::new();
+    for (k, ev) in scn.events.iter().enumerate() {
+        match ev {
+            Event::ConfigGrows { name } => {
+                targets.insert(name.clone());
+                stats.bump("config_grows_fired");
+            }
+            Event::Tick(t) => {
+                if steps.is_empty() {
+                    env = t.env.clone();
+                }
+                let input = if calls.is_empty() { SessionInput::Text(orig.clone()) } else { SessionInput::OutputOf(calls.len() - 2) };
+                calls.push(SessionCall { input, offset: scn.offset.clone(), now: t.now, targets: targets.clone() });
+                // the same configuration once more, on the result
+                calls.push(SessionCall { input: SessionInput::OutputOf(calls.len() - 1), offset: scn.offset.clone(), now: t.now, targets: targets.clone() });
+                steps.push((k, t.now, targets.clone()));
+            }
+        }
+    }
+    if steps.is_empty() {
+        return None;
+    }
+    stats.bump("library_sessions");
+    let outs = library_session(&scn.doc, &env, calls);
+    let mut changing = 0;
+    let mut prev = orig.clone();
+    for (i, (k, now, tg)) in steps.iter().enumerate() {
+        stats.execs += 2;
+        let (x, dup) = match (&outs[2 * i], &outs[2 * i + 1]) {
+            (Ok(a), Ok(b)) => (a, b),
+            _ => {
+                stats.unevaluable = true;
+                stats.bump("unevaluable_library_panics_on_intermediate_text");
+                return None;
+            }
+        };
+        stats.note(format!("event {}: session step now={:?} targets={:?}\n   text after step: {:?}", k, now, tg, x));
+        fnv(&mut stats.fingerprint, format!("step|{:x}", hash_str(x)).as_bytes());
+        fnv(&mut stats.log_hash, x.as_bytes());
+        if *x != prev {
+            changing += 1;
+        }
+        prev = x.clone();
+        let one_shot = match fresh_one_shot(scn, &orig, *now, tg) {
+            Ok(r) => r,
+            Err(_) => {
+                stats.unevaluable = true;
+                stats.bump("unevaluable_reference_panicked");
+                return None;
+            }
+        };
+        stats.bump("fresh_process_references");
+        if let Some((inv, sig, stranded, over)) = compare_with_one_shot(scn, x, &one_shot) {
+            return fail(
+                &inv,
+                format!("session:{}", sig),
+                format!(
+                    "library session: after step {} (now={:?}, targets={:?}) the text differs from a one-shot cleaning of the original in a fresh process\n  stepwise {:?}\n  one-shot {:?}\n  stranded ids {:?} over-removed ids {:?}",
+                    k, now, tg, x, one_shot, stranded, over
+                ),
+                *k,
+            );
+        }
+        if dup != x {
+            return fail(
+                "C19.I1_idempotent",
+                "session:dup-changes-text".into(),
+                format!("library session: cleaning the result of step {} again with the same time and targets changed it\n  first  {:?}\n  second {:?}", k, x, dup),
+                *k,
+            );
+        }
+    }
+    let (first, last) = (steps.first().unwrap().1, steps.last().unwrap().1);
+    stats.sim_seconds = last.0 - first.0;
+    if changing >= 2 {
+        stats.bump("probe_history_with_two_or_more_removing_ticks");
+    }
+    stats.nontrivial = changing >= 2;
+    None
+}
+
+pub fn run(scn: &C19Scn, stats: &mut RunStats) -> Option<Violation> {
+    if scn.session {
+        return run_session(scn, stats);
+    }
+    let orig = scn.doc.render();
+    for e in scn.doc.elems() {
+        if e.wrapper_inline.is_some() {
+            stats.bump("probe_inline_element_on_unwrap_wrapper_line");
+        }
+        if e.unwrap_degenerate {
+            stats.bump("probe_unwrap_block_that_cannot_be_unwrapped");
+        }
+    }
     let mut fs = Fs::new();
     fs.insert(SRC.to_string(), orig.clone().into_bytes());
     let mut cfg_text = String::new();
@@ -494,7 +641,7 @@ pub fn run(scn: &C19Scn, stats: &mut RunStats) -> Option<Violation> {
     if first_t.is_some() {
         let final_tick = Tick {
             now: last_t,
-            time: TickTime::Explicit { zone_off: 0, zulu: true, decoy: ClockSpec { sec: 0, nsec: 0, tick_ns: 0 } },
+            time: TickTime::Explicit { zone_off: 0, zulu: true, decoy: ClockSpec { sec: 0, nsec: 0, tick_ns: 0 }, spelling: 0 },
             env: BTreeMap::new(),
             io: IoPlan::default(),
             label: "final".into(),
@@ -505,13 +652,15 @@ pub fn run(scn: &C19Scn, stats: &mut RunStats) -> Option<Violation> {
         stats.absorb("final", &out, &after);
         let k = scn.events.len();
         if matches!(out.status, Status::Exit(0)) {
-            let one_shot = match lib_call(&orig, &scn.doc, &scn.offset, last_t, &targets, Mode::Clean, false) {
+            // the reference for convergence comes from a brand-new process
+            let one_shot = match fresh_one_shot(scn, &orig, last_t, &targets) {
                 Ok(r) => r,
                 Err(_) => {
                     stats.unevaluable = true;
                     return None;
                 }
             };
+            stats.bump("fresh_process_references");
             let after_s = String::from_utf8_lossy(&after).into_owned();
             if strip_ws(&one_shot) != strip_ws(&after_s) {
                 let got: BTreeSet<u32> = scn.doc.surviving_ids(&after_s).into_iter().collect();
@@ -592,7 +741,7 @@ pub fn shrink_candidates(s: &C19Scn) -> Vec<C19Scn> {
             nt.env.clear();
             push(nt);
             let mut nt = t.clone();
-            nt.time = TickTime::Explicit { zone_off: 0, zulu: true, decoy: ClockSpec::default() };
+            nt.time = TickTime::Explicit { zone_off: 0, zulu: true, decoy: ClockSpec::default(), spelling: 0 };
             push(nt);
             let mut nt = t.clone();
             nt.now.1 = 0;
@@ -617,5 +766,5 @@ pub fn sample(s: &C19Scn) -> serde_json::Value {
             }
         })
         .collect();
-    serde_json::json!({"source": s.doc.render(), "offset": s.offset, "initial_targets": s.initial_targets, "flag_targets": s.flag_targets, "events": events})
+    serde_json::json!({"library_session": s.session, "source": s.doc.render(), "offset": s.offset, "initial_targets": s.initial_targets, "flag_targets": s.flag_targets, "events": events})
 }
